@@ -758,7 +758,7 @@ func c36() {
 				} else if res.User != "" {
 					token, component = res.User+"@"+res.Host, "user"
 				}
-				if consumed && strings.HasPrefix(c36Canon(token), "-") {
+				if consumed && (strings.HasPrefix(c36Canon(token), "-") || strings.HasPrefix(strings.TrimLeft(token, "[(<'\" \t"), "-")) {
 					sig["rule"], sig["component"] = "component-parsed-as-option", component
 				} else {
 					sig["rule"], sig["operation"] = "argv-differs-from-intent", op.Name
